@@ -66,8 +66,9 @@ pub fn patterns(space: &str, tier: &str, seed: u64) -> Vec<String> {
     let thorough = tier == "thorough";
     let mut seen: HashSet<String> = HashSet::new();
     let mut out: Vec<String> = Vec::new();
+    let maxlen = std::cell::Cell::new(80usize);
     let mut push = |s: String, out: &mut Vec<String>| {
-        if s.len() <= 80 && seen.insert(s.clone()) {
+        if s.len() <= maxlen.get() && seen.insert(s.clone()) {
             out.push(s);
         }
     };
@@ -133,6 +134,23 @@ pub fn patterns(space: &str, tier: &str, seed: u64) -> Vec<String> {
                 }
             }
         }
+    }
+    // wide family: the same commit / restore shapes with enough capture groups between the two written groups
+    // that their slot numbers differ by 16, 32, 64 or 128 (fixed-width masks or arrays in the cut / restore logic)
+    if ["c01", "c15", "c05", "c16", "c07"].contains(&space) {
+        maxlen.set(600);
+        for k in [6usize, 7, 8, 14, 15, 16, 30, 31, 32, 62, 63, 64] {
+            for unit in ["(z)?", "()"] {
+                let f = unit.repeat(k);
+                push(format!("(?:(?>(a)(?:b|bb){}(b))a|abb)", f), &mut out);
+                push(format!("(?:(?=(a)(?:b|bb){}(b))aa|abb)", f), &mut out);
+                if unit == "(z)?" {
+                    push(format!("(?:(?((a)(?:b|bb){}(b))a|b)|abb)", f), &mut out);
+                    push(format!("(a)?{}(?>(?:b|bb)(b))a|ab+", f), &mut out);
+                }
+            }
+        }
+        maxlen.set(80);
     }
     // context x filler products
     let conds = g.conds;
